@@ -4,15 +4,18 @@ Creates a patch against /repo by textual replacement (exactly one occurrence unl
 import sys, subprocess, tempfile, os, shutil
 name, prop, fname = sys.argv[1:4]
 text = sys.stdin.read()
-old, new = text.split('\n====\n')
-old = old.strip('\n'); new = new.strip('\n')
 src = open('/repo/' + fname).read()
-if src.count(old) != 1:
-    sys.exit('pattern occurs %d times in %s' % (src.count(old), fname))
+mut = src
+for pair in text.split('\n####\n'):
+    old, new = pair.split('\n====\n')
+    old = old.strip('\n'); new = new.strip('\n')
+    if mut.count(old) != 1:
+        sys.exit('pattern occurs %d times in %s: %s' % (mut.count(old), fname, old[:60]))
+    mut = mut.replace(old, new)
 d = tempfile.mkdtemp()
 os.makedirs(d + '/a'); os.makedirs(d + '/b')
 open(d + '/a/' + fname, 'w').write(src)
-open(d + '/b/' + fname, 'w').write(src.replace(old, new))
+open(d + '/b/' + fname, 'w').write(mut)
 p = subprocess.run(['diff', '-u', 'a/' + fname, 'b/' + fname], cwd=d, capture_output=True, text=True)
 out = '/verif/mutants/%s.patch' % name
 open(out, 'w').write('# property: %s\n' % prop + p.stdout)
